@@ -29,6 +29,15 @@ CLS = "skmatter.linear_model.Ridge2FoldCV"
 
 
 def check(ctx):
+    # positional parameters keep their documented positions (a reordering survives every keyword call)
+    from ..sigrules import signatures as _signatures
+
+    _signatures(ctx, "R-SIG", classes=('skmatter.linear_model.Ridge2FoldCV',))
+    from ..flagrules import class_flag_equivalence as _cfe
+    from ..harness import arr as _arr
+
+    _c = ctx.P.cls("skmatter.linear_model.Ridge2FoldCV")
+    _cfe(ctx, ctx.normalizer(), "R-FLAG", _c, "shuffle", lambda: {"alphas": _arr("alphas", "G")}, [("fit", lambda: (_arr("X", "N", "M"), _arr("y", "N", "P")), lambda: {})], ctx.site(_c.methods["fit"]), interp_kw={"assume": protocols.assume_default, "call_hook": protocols.fold_hook})
     P = ctx.P
     N = ctx.normalizer()
     cls = P.cls(CLS)
